@@ -27,6 +27,16 @@ TRUSTED = ['numpy.array (vector construction)', 'sorted (stable; symbolic keys d
 EXPLANATION = ('split_candle: every return path against 8 postconditions, unbounded (all real inputs). '
                '_sort_execution_orders path order: bounded stand-in, N resting orders with symbolic real prices.')
 
+MANIFEST = {
+    'category': 'proof',
+    'text': 'split_candle: every return path of the real function is proved against the sidecar postconditions for all '
+            'real-valued candles and prices (exact for floats: the body only compares and selects). The path order of '
+            '_sort_execution_orders is a bounded stand-in (N<=4 quick / N<=5 thorough resting orders, symbolic prices), '
+            'reported under bounded_checks and never counted as discharged.',
+    'note': 'Trusted: numpy.array construction, sorted() stability; engine soundness (A-12) guarded by a must-fail clause, '
+            'vacuity covers and an obligation lock. The continuation clause is a data-flow obligation decided under C02.',
+}
+
 
 def _candle(h):
     c = h.vec('c', 6)
